@@ -16,8 +16,10 @@ import (
 	"math"
 	"math/rand/v2"
 	"reflect"
+	"slices"
 	"strconv"
 	"strings"
+	"time"
 
 	json "github.com/go-json-experiment/json"
 	"github.com/go-json-experiment/json/jsontext"
@@ -963,6 +965,7 @@ type mcase struct {
 	permFails  bool // success not demanded with the permissive option (value unsupported for other reasons)
 	utf8       bool
 	rawPlanted bool // the ill-formed bytes sit inside a raw jsontext.Value
+	inside     bool // the string is part of a longer formatted text
 }
 
 func buildMarshal(a *marshalArgs) (mc mcase, ok bool) {
@@ -1048,6 +1051,35 @@ func buildMarshal(a *marshalArgs) (mc mcase, ok bool) {
 		mc = mcase{v: struct {
 			Q *string `json:"q,string"`
 		}{&bad}, utf8: true}
+	case "utf8-zone-name-format", "utf8-zone-name-ptr-format":
+		// a zone abbreviation is an arbitrary Go string; layouts with an MST element copy it into the output
+		// (needs ExperimentalSupportFormatTag, set by runMarshal for families ending in -format)
+		tm := time.Date(2001, 2, 3, 4, 5, 6, 0, time.FixedZone(bad, 3600))
+		switch slices.Index(badGo, bad) % 4 {
+		case 0:
+			mc = mcase{v: struct {
+				A int
+				T time.Time `json:"t,format:RFC1123"`
+			}{1, tm}, utf8: true, inside: true}
+		case 1:
+			mc = mcase{v: struct {
+				T time.Time `json:"t,format:UnixDate"`
+			}{tm}, utf8: true, inside: true}
+		case 2:
+			mc = mcase{v: struct {
+				T time.Time `json:"t,format:'2006-MST'"`
+			}{tm}, utf8: true, inside: true}
+		default:
+			mc = mcase{v: struct {
+				T time.Time `json:"t,format:RFC850"`
+				B bool
+			}{tm, true}, utf8: true, inside: true}
+		}
+		if a.Family == "utf8-zone-name-ptr-format" {
+			mc = mcase{v: struct {
+				T *time.Time `json:"t,format:RFC822"`
+			}{&tm}, utf8: true, inside: true}
+		}
 	case "utf8-ptr":
 		mc = mcase{v: &bad, utf8: true}
 	case "utf8-value":
@@ -1132,6 +1164,9 @@ func runMarshal(w *run.W, a *marshalArgs) {
 	if strings.HasSuffix(a.Family, "-legacy-stringify") {
 		marshalExtra = []json.Options{jsonv1.StringifyWithLegacySemantics(true)} // `string` then also quotes Go strings
 	}
+	if strings.HasSuffix(a.Family, "-format") {
+		marshalExtra = []json.Options{json.ExperimentalSupportFormatTag(true)}
+	}
 	defer func() { marshalExtra = nil }()
 	w.Eval(1)
 	w.Count("marshal_cases", 1)
@@ -1202,6 +1237,9 @@ func runMarshal(w *run.W, a *marshalArgs) {
 				w.Count("marshal_permissive_ok", 1)
 			case ref.Parse(out, ref.Opts{}) == nil:
 				w.Violate("marshal-output-invalid", sig("api", api), "output %q with AllowInvalidUTF8 is not valid JSON in valid UTF-8", out)
+			case mc.inside && bytes.Contains(out, []byte(ref.Sanitize(string(a.Bad)))):
+				// (the string sits inside a longer formatted text)
+				w.Count("marshal_permissive_ok", 1)
 			case !bytes.Contains(out, []byte(`"`+ref.Sanitize(string(a.Bad))+`"`)) &&
 				!(strings.HasSuffix(a.Family, "-legacy-stringify") && bytes.Contains(out, []byte(`\"`+ref.Sanitize(string(a.Bad))+`\"`))):
 				// (under the legacy stringify option the string sits, quoted once more, inside the outer string)
@@ -1321,7 +1359,8 @@ var namedLeaves = []string{"value", "TokReader", "ValTok", "SkipTok", "ValReader
 var marshalFamilies = []string{"fallmap-field", "fallnamed-field", "fallval-field", "fallval-escaped", "fallval-internal", "fallval-internal-escaped", "fallval-nested", "value-internal",
 	"map-invalid-keys", "anymap-invalid-keys", "fallmap-invalid-keys", "fallval-invalid-keys", "fallval-invalid-vs-literal", "value-invalid-keys", "namedkey-invalid", "textkey", "textkey-struct", "nan-keys",
 	"utf8-string", "utf8-field", "utf8-elem", "utf8-mapval", "utf8-mapkey", "utf8-namedkey", "utf8-anystring", "utf8-anymapkey", "utf8-textmarshaler",
-	"utf8-textmarshaler-key", "utf8-fallmap-key", "utf8-fallmap-val", "utf8-ptr", "utf8-value", "utf8-fallval", "utf8-stringtag-legacy-stringify", "utf8-stringtag-ptr-legacy-stringify"}
+	"utf8-textmarshaler-key", "utf8-fallmap-key", "utf8-fallmap-val", "utf8-ptr", "utf8-value", "utf8-fallval", "utf8-stringtag-legacy-stringify", "utf8-stringtag-ptr-legacy-stringify",
+	"utf8-zone-name-format", "utf8-zone-name-ptr-format"}
 
 var badGo = []string{"a\xffb", "\xc3", "x\xed\xa0\x80", "\xc0\x80z", "é\xff", "\xf4\x90\x80\x80", "q\xe2\x82"}
 
